@@ -9,9 +9,11 @@
 package main
 
 import (
+	"crypto/sha256"
 	"encoding/hex"
 	"fmt"
 	"os"
+	"path/filepath"
 	"sort"
 	"strings"
 
@@ -42,8 +44,45 @@ func hxb(b []byte) string {
 	return hex.EncodeToString(b)
 }
 
+// cachedSites: the extraction (go list -export + type checking, tens of seconds on a loaded machine) is keyed by the
+// content of every non-test Go file of the analysed packages plus go.mod; a changed file always re-extracts.
+func cachedSites(repo string) ([]string, error) {
+	h := sha256.New()
+	files := []string{filepath.Join(repo, "go.mod")}
+	for _, p := range sitePkgs {
+		m, _ := filepath.Glob(filepath.Join(repo, p, "*.go"))
+		sort.Strings(m)
+		for _, f := range m {
+			if !strings.HasSuffix(f, "_test.go") {
+				files = append(files, f)
+			}
+		}
+	}
+	for _, f := range files {
+		b, err := os.ReadFile(f)
+		if err != nil {
+			return nil, err
+		}
+		fmt.Fprintf(h, "%s %d\n", f, len(b))
+		h.Write(b)
+	}
+	self, _ := os.Executable()
+	cache := filepath.Join(filepath.Dir(filepath.Dir(self)), "c13sites."+hex.EncodeToString(h.Sum(nil)[:12])+".txt")
+	if os.Getenv("VERIF_C13_NOCACHE") == "" {
+		if b, err := os.ReadFile(cache); err == nil && len(b) > 0 {
+			out.Stat("sites_from_cache", 1)
+			return strings.Split(strings.TrimRight(string(b), "\n"), "\n"), nil
+		}
+	}
+	sites, err := extractSites(repo)
+	if err == nil {
+		_ = os.WriteFile(cache, []byte(strings.Join(sites, "\n")+"\n"), 0o644)
+	}
+	return sites, err
+}
+
 func siteTie() {
-	sites, err := extractSites(repoDir())
+	sites, err := cachedSites(repoDir())
 	if err != nil {
 		out.Op("sitecount -1", "extractor-failed")
 		out.Note("extractor: " + err.Error())
